@@ -122,6 +122,8 @@ type dVariant struct {
 	EmptyTok string `json:"emptytok"`
 	Query    int    `json:"query"` // query string of the request URL
 	Wire     bool   `json:"wire"`  // include mode: the document is what UnmarshalDocument returned for the built one
+	// Served: the document object has been marshaled once before, for a request that selected fewer fields
+	Served bool `json:"served"`
 }
 
 type dCase struct {
@@ -144,6 +146,7 @@ var idMaps = [][2]string{
 	{"\x01\x1f", "\x7f\u2028"}, // control characters, DEL, line separator
 	{"\\u003c", "\\u0026"},     // a literal backslash before u003c: the text of a JSON escape
 	{" ", "\n"},                // white space at the edges
+	{"./../", "//.."},          // dot segments and doubled slashes: an id is not a path to be cleaned
 }
 
 func (v dVariant) id(tok string) string {
@@ -760,6 +763,21 @@ func runDocCase(c dCase) dEvent {
 	p, _ := catch(func() {
 		w := newDocWorld(c.Var, c.Seed)
 		doc, url, live := w.build(c.Doc)
+		if c.Var.Served {
+			// the same document served a narrower request first (for every type only the last of the
+			// names now selected): what it asks for - its relationship data - is still what it was
+			full := url.Params.Fields
+			narrow := map[string][]string{}
+			for t, names := range full {
+				narrow[t] = append([]string{}, names...)
+				if len(names) > 1 {
+					narrow[t] = narrow[t][len(names)-1:]
+				}
+			}
+			url.Params.Fields = narrow
+			_, _ = jsonapi.MarshalDocument(doc, url)
+			url.Params.Fields = full
+		}
 		before := snapshot(live, url)
 		payload, err := jsonapi.MarshalDocument(doc, url)
 		if err != nil {
@@ -1062,7 +1080,7 @@ func docMain(args []string) {
 	rng := newRand(*seed, "doc")
 	stt := newStats()
 	w := newEvWriter(*out, 20000)
-	prefixes := []string{"", "/", "https://x.org", "https://x.org/", "/api/v1"}
+	prefixes := []string{"", "/", "https://x.org", "https://x.org/", "/api/v1", "https://x.org/api//", "//", "/a/../b/./"} // (a prefix is taken as it is: nothing in it is cleaned)
 	var sysDocs []dDoc
 	if *systematic {
 		all := []string{"a", "m", "n", "o", "m2", "o2"}
@@ -1146,6 +1164,9 @@ func docMain(args []string) {
 		v := dVariant{Impl: []string{"soft", "wrap"}[rng.Intn(2)], Shift: rng.Intn(len(nonBool)), Table: rng.Intn(3),
 			Prefix: prefixes[rng.Intn(len(prefixes))], Meta: rng.Intn(len(metaClasses)), IDMap: rng.Intn(len(idMaps)), Reps: *reps,
 			NoFrom: rng.Intn(3) == 0, EmptyTok: []string{"", "", "", "v", "u"}[rng.Intn(5)], Query: rng.Intn(len(docQueries))}
+		if v.Served = rng.Intn(4) == 0; v.Served {
+			stt.class("served-a-narrower-request-before")
+		}
 		if d.Coll == "wrapcol" {
 			v.Impl = "wrap"
 		}
